@@ -85,7 +85,7 @@ func pinTypeCase(x ssa.Value, dyn string) Pin {
 		switch e := v.(type) {
 		case *ssa.Call:
 			// a type-test helper such as Is[T](x): `_, ok := n.(T); return ok`
-			if len(e.Call.Args) != 1 || stripIface(e.Call.Args[0]) != x && e.Call.Args[0] != x {
+			if len(e.Call.Args) != 1 || !dynAlias(stripIface(e.Call.Args[0]), x) && !dynAlias(e.Call.Args[0], x) {
 				return nil, false
 			}
 			if t := typeTestHelper(calleeOf(e)); t != nil {
@@ -97,7 +97,7 @@ func pinTypeCase(x ssa.Value, dyn string) Pin {
 			return nil, false
 		case *ssa.Extract:
 			ta, ok := e.Tuple.(*ssa.TypeAssert)
-			if !ok || !ta.CommaOk || ta.X != x || e.Index != 1 {
+			if !ok || !ta.CommaOk || !dynAlias(ta.X, x) || e.Index != 1 {
 				return nil, false
 			}
 			if _, isIface := ta.AssertedType.Underlying().(*types.Interface); isIface {
@@ -109,9 +109,9 @@ func pinTypeCase(x ssa.Value, dyn string) Pin {
 				return nil, false
 			}
 			var other ssa.Value
-			if e.X == x {
+			if dynAlias(e.X, x) {
 				other = e.Y
-			} else if e.Y == x {
+			} else if dynAlias(e.Y, x) {
 				other = e.X
 			} else {
 				return nil, false
@@ -143,22 +143,93 @@ func pinValue(x ssa.Value, val constant.Value) Pin {
 // assertedValue: the extract #0 of `x.(T)` comma-ok assertions for the given type key.
 func assertedValues(f *ssa.Function, x ssa.Value, key string) []ssa.Value {
 	var out []ssa.Value
-	instrs(f, func(b *ssa.BasicBlock, i int, in ssa.Instruction) {
-		ta, ok := in.(*ssa.TypeAssert)
-		if !ok || ta.X != x || typeKey(ta.AssertedType) != key {
-			return
+	for _, g := range dynScope(f) {
+		instrs(g, func(b *ssa.BasicBlock, i int, in ssa.Instruction) {
+			ta, ok := in.(*ssa.TypeAssert)
+			if !ok || !dynAlias(ta.X, x) || typeKey(ta.AssertedType) != key {
+				return
+			}
+			if !ta.CommaOk {
+				out = append(out, ta)
+				return
+			}
+			for _, r := range *ta.Referrers() {
+				if e, ok := r.(*ssa.Extract); ok && e.Index == 0 {
+					out = append(out, e)
+				}
+			}
+		})
+	}
+	return out
+}
+
+// dynScope: f and the module functions it calls, two levels deep (where a value of f can travel as an argument).
+func dynScope(f *ssa.Function) []*ssa.Function {
+	out := []*ssa.Function{f}
+	seen := map[*ssa.Function]bool{f: true}
+	frontier := []*ssa.Function{f}
+	for depth := 0; depth < 2; depth++ {
+		var next []*ssa.Function
+		for _, g := range frontier {
+			instrs(g, func(b *ssa.BasicBlock, i int, in ssa.Instruction) {
+				call, ok := in.(ssa.CallInstruction)
+				if !ok {
+					return
+				}
+				cal := calleeOf(call)
+				if cal == nil || seen[cal] || len(cal.Blocks) == 0 || cal.Pkg != f.Pkg {
+					return
+				}
+				seen[cal] = true
+				out = append(out, cal)
+				next = append(next, cal)
+			})
 		}
-		if !ta.CommaOk {
-			out = append(out, ta)
-			return
-		}
-		for _, r := range *ta.Referrers() {
-			if e, ok := r.(*ssa.Extract); ok && e.Index == 0 {
-				out = append(out, e)
+		frontier = next
+	}
+	return out
+}
+
+var dynAliasMemo = map[[2]ssa.Value]int{}
+
+// dynAlias: y holds the very interface value x holds: y is x, or y is a parameter of a module function within
+// x's dynScope every call of which (inside that scope) passes an alias of x in that position.
+func dynAlias(y, x ssa.Value) bool {
+	if y == x {
+		return true
+	}
+	p, ok := y.(*ssa.Parameter)
+	if !ok || x == nil || x.Parent() == nil || p.Parent() == x.Parent() {
+		return false
+	}
+	k := [2]ssa.Value{y, x}
+	if v, hit := dynAliasMemo[k]; hit {
+		return v == 1
+	}
+	dynAliasMemo[k] = 2 // in progress: a cycle does not establish an alias
+	g := p.Parent()
+	idx := paramIndex(p)
+	n, all := 0, true
+	for _, fn := range dynScope(x.Parent()) {
+		for _, site := range callsTo(fn, g) {
+			n++
+			if idx >= len(site.Call.Args) {
+				all = false
+				continue
+			}
+			a := site.Call.Args[idx]
+			if !dynAlias(a, x) && !dynAlias(stripIface(a), x) {
+				all = false
 			}
 		}
-	})
-	return out
+	}
+	res := n > 0 && all
+	if res {
+		dynAliasMemo[k] = 1
+	} else {
+		dynAliasMemo[k] = 0
+	}
+	return res
 }
 
 // foldWith folds f (all parameters unknown) under the given pins.
